@@ -222,7 +222,7 @@ fn config(report: &Report, cli: &Cli, global: &GlobalContext<ArCurve>, n: u8, t:
         let tags: Vec<u8> = [0u8, 3, 8].iter().enumerate().filter(|(i, _)| mask >> i & 1 == 1).map(|(_, t)| *t).collect();
         cred_cases.push((format!("policy={tags:?}"), 0, 0, tags, (1, 1), false));
     }
-    for (nk, th) in [(1u8, 1u8), (2, 1), (3, 2), (3, 3)] {
+    for (nk, th) in [(1u8, 1u8), (2, 1), (3, 1), (3, 2), (3, 3)] {
         cred_cases.push((format!("keys={nk} threshold={th}"), 0, 1, vec![], (nk, th), true));
     }
     // other attribute lists
@@ -273,6 +273,49 @@ fn config(report: &Report, cli: &Cli, global: &GlobalContext<ArCurve>, n: u8, t:
                         let back: Cdi = from_bytes(&mut &b[..]).map_err(|e| ("credential-does-not-decode".to_string(), json!(format!("{e:#}"))))?;
                         if to_bytes(&back) != b || !check_cdi(&s, &back, noe) {
                             return fail("credential-round-trip", json!({}));
+                        }
+                        // account ownership: every key of the credential must have signed,
+                        // whatever the signature threshold of the credential is
+                        let nkeys = cdi.proofs.proof_acc_sk.sigs.len();
+                        let idxs: Vec<KeyIndex> = cdi.proofs.proof_acc_sk.sigs.keys().copied().collect();
+                        for (pos, k) in idxs.iter().enumerate() {
+                            let mut x = cdi.clone();
+                            x.proofs.proof_acc_sk.sigs.remove(k);
+                            report.trace(1);
+                            if check_cdi(&s, &x, noe) {
+                                return fail("altered-credential-verifies", json!({"what": format!("ownership signature of key {} removed", k.0)}));
+                            }
+                            if nkeys >= 2 {
+                                let other = cdi.proofs.proof_acc_sk.sigs[&idxs[(pos + 1) % nkeys]].clone();
+                                let mut x = cdi.clone();
+                                x.proofs.proof_acc_sk.sigs.insert(*k, other);
+                                report.trace(1);
+                                if check_cdi(&s, &x, noe) {
+                                    return fail("altered-credential-verifies", json!({"what": format!("ownership signature of key {} replaced by that of another key", k.0)}));
+                                }
+                            }
+                            // the same key's signature over another credential
+                            let other_cd = mk(obj, counter.wrapping_add(1) % al.max_accounts.max(1), policy_of(al, tags), &cd, noe);
+                            if let Ok(oc) = other_cd {
+                                if oc.values.cred_id != cdi.values.cred_id {
+                                    let mut x = cdi.clone();
+                                    x.proofs.proof_acc_sk.sigs.insert(*k, oc.proofs.proof_acc_sk.sigs[k].clone());
+                                    report.trace(1);
+                                    if check_cdi(&s, &x, noe) {
+                                        return fail("altered-credential-verifies", json!({"what": format!("ownership signature of key {} taken from another credential", k.0)}));
+                                    }
+                                }
+                            }
+                        }
+                        {
+                            // a signature under a key index the credential does not have
+                            let mut x = cdi.clone();
+                            let any = x.proofs.proof_acc_sk.sigs.values().next().unwrap().clone();
+                            x.proofs.proof_acc_sk.sigs.insert(KeyIndex(200), any);
+                            report.trace(1);
+                            if check_cdi(&s, &x, noe) {
+                                return fail("altered-credential-verifies", json!({"what": "ownership signature under an unknown key index added"}));
+                            }
                         }
                         // anonymity revocation: every subset of revokers
                         for subset in subsets(n as usize) {
